@@ -403,8 +403,15 @@ class Runner:
         elif op == "in":
             present = rng.random() < 0.5
             x = rng.choice(model.items) if present else rng.randbytes(isz)
-            if rng.random() < 0.15:
+            r0 = rng.random()
+            if r0 < 0.15:
                 x = x.lstrip(b"\x00") or b"\x00"  # unpadded form: a list would not contain it unless equal
+            elif r0 < 0.45 and isz >= 2 and n >= 2:
+                # a probe of item size that straddles two neighbouring items (not aligned to an item boundary)
+                i0 = rng.randrange(n - 1)
+                off = rng.randint(1, isz - 1)
+                x = (model.items[i0] + model.items[i0 + 1])[off:off + isz]
+                acc.count("membership_probes_across_item_boundary")
             self.trace.append(["in", x.hex()])
             try:
                 got = x in arr
@@ -433,8 +440,29 @@ class Runner:
             if len(arr2) != n or arr2.item_size != isz:
                 self.viol("array:reopen-metadata", "length or item size changed across close+open")
                 raise Fail()
-            if not self.full_compare(arr2, model, "after-reopen"):
-                raise Fail()
+            after = rng.choice(["full-read", "nothing", "nothing", "clear"])
+            self.trace[-1].append(after)
+            if after == "full-read":
+                if not self.full_compare(arr2, model, "after-reopen"):
+                    raise Fail()
+            elif after == "clear":
+                # clear right after the reopen, before any chunk has been touched in this session
+                acc.count("op.clear-right-after-reopen")
+                try:
+                    arr2.clear()
+                except Exception as e:
+                    self.viol(f"array:clear-raised:{exc_site(e)}", f"{type(e).__name__}: {e}")
+                    raise Fail()
+                model.items = [bytes(isz)] * n
+                try:
+                    arr2.close()
+                    arr2 = self.SP.open(path)
+                except Exception as e:
+                    self.viol(f"array:reopen-raised:{exc_site(e)}", f"{type(e).__name__}: {e}")
+                    raise Fail()
+                self.arr = arr2
+                if not self.full_compare(arr2, model, "after-reopen-clear-reopen"):
+                    raise Fail()
         elif op == "closed_ops":
             self.trace.append(["close; every operation must raise ValueError; open"])
             try:
@@ -646,6 +674,11 @@ def replay(case, acc, ctx):
             elif kind in ("close+open", "final-reopen") or kind.startswith("close;"):
                 arr.close()
                 arr = SP.open(path)
+                if kind == "close+open" and len(op) > 1 and op[1] == "clear":
+                    arr.clear()
+                    model.items = [bytes(isz)] * n
+                    arr.close()
+                    arr = SP.open(path)
             if arr is not None and kind not in ("create",):
                 if arr[:] != model.items:
                     return diverged(step, "full read differs from the model after this step")
